@@ -24,7 +24,7 @@ fi
 if [ "$nfail" -gt 0 ]; then
   mkdir -p "$OUT/replays/C07"
   cp "$W/out.txt" "$OUT/replays/C07/bounded_typecheck_failures.txt"
-  echo "VIOLATION property=C07 replay=$VERIF/replays/C07/bounded_typecheck_failures.txt"
+  echo "VIOLATION property=C07 replay=$OUT/replays/C07/bounded_typecheck_failures.txt"
   rc=1
 fi
 descs=$(echo "$done_line" | sed 's/.*descriptions=\([0-9]*\).*/\1/'); tc=$(echo "$done_line" | sed 's/.*typechecked=\([0-9]*\).*/\1/')
